@@ -49,11 +49,25 @@ def _alarm(signum, frame):
     raise Timeout()
 
 
+TIMEOUTS = {"n": 0, "spent": 0.0}
+TIMEOUT_BUDGET = 25.0        # seconds a whole run may lose in alarms; after that every alarm is 0.25 s
+
+
 def with_timeout(seconds, f):
+    """run f under an alarm.  All alarms of one process share a budget, so that a tree on which many programs
+    stop terminating still finishes in about two minutes."""
+    import time as _time
+    if TIMEOUTS["spent"] >= TIMEOUT_BUDGET:
+        seconds = min(seconds, 0.25)
     old = signal.signal(signal.SIGALRM, _alarm)
     signal.setitimer(signal.ITIMER_REAL, seconds)
+    t0 = _time.time()
     try:
         return f()
+    except Timeout:
+        TIMEOUTS["n"] += 1
+        TIMEOUTS["spent"] += _time.time() - t0
+        raise
     finally:
         signal.setitimer(signal.ITIMER_REAL, 0)
         signal.signal(signal.SIGALRM, old)
@@ -198,7 +212,14 @@ class ProgGen:
                 name = "m%d" % len(self.ext_names)
                 active = rng.random() < 0.6
                 self.ext_names[name] = active
-                out.append({"k": "ext", "name": name, "active": active, "ops": self.nodes(depth - 1)})
+                nd = {"k": "ext", "name": name, "active": active, "ops": self.nodes(depth - 1)}
+                out.append(nd)
+                if rng.random() < 0.3:
+                    # another module in between, then the same module again (`>y >x >y`)
+                    name2 = "m%d" % len(self.ext_names)
+                    self.ext_names[name2] = True
+                    out.append({"k": "ext", "name": name2, "active": True, "ops": [self.rule_node()]})
+                    out.append(copy.deepcopy(nd))
             else:
                 out.append({"k": "incl", "lines": self.nodes(depth - 1)})
         return out
@@ -276,6 +297,19 @@ SPECIMENS = [
     (" +", " "), ("([ab])", r" \1 "), ("(a(b)?)", r"\2\1"), ("(?P<n>a)(b)", r"\g<n>-\g<2>"), ("(a)(b)", r"x\g<0>y"),
     ("(a)", r"\1\t"), ("a", r"\\"), ("a", r"\0"), ("(a)(b)", r"a\101b"), ("(a)", r"\1\07x"), ("(a)b(x)", r"\1 \2 "),
     ("()a", r"\1b"), ("(a)*", r"\1-"), ("(x|)b", r"\1"), ("a", "aa"), ("(a)(b)", r"\1\3"),
+    # a literal, then an optional group that did not participate, then one that did
+    ("(a)(b)?(x)", r"\1y\2\3"), ("a(b)?(x)", r"-\1\2"), ("(b)?(a)", r"y\1\2"), ("(a)(b)?(x)?(a)", r"\1-\2\3\4"),
+    ("(a)?(b)?(x)", r"zz\1\2\3"),
+    # same total length, carried-over characters moved to the right / to the left
+    ("(a)b", r"y\1"), ("x(a)", r"\1y"), ("(a)(b) ", r" \1\2"), (" (a)", r"\1 "),
+]
+
+# rule sequences for the bounded-exhaustive stream: steps that keep the length but move carried-over characters
+# (equal-length maps merged one after the other), deleting then inserting, and `>y >x >y` module calls
+SPECIMEN_SEQS = [
+    [("(a)b", r"y\1"), ("(y)a", r"-\1")], [("x(a)", r"\1y"), ("(a)y", r"y\1")], [("(a)b", r"y\1"), ("y(a)", r"\1b")],
+    [(" (a)", r"\1 "), ("(a) ", r" \1"), (" (a)", r"\1 ")], [("(a)(b)", r"\1"), ("(a)", r"\1b")],
+    [("b", ""), ("(a)", r"x\1")],
 ]
 
 
@@ -284,6 +318,18 @@ def specimen_cases(maxlen, tier):
     for pat, tpl in SPECIMENS:
         yield make_case([{"k": "rule", "id": 0}], [{"pat": pat, "tpl": tpl}], [], strings, tok=r"[ \t]+", via="string",
                         kind="specimen")
+    for seq in SPECIMEN_SEQS:
+        rules = [{"pat": p, "tpl": tp} for p, tp in seq]
+        yield make_case([{"k": "rule", "id": i} for i in range(len(rules))], rules, [], strings, tok=r"[ \t]+",
+                        via="file", kind="specimen")
+    # `>y >x >y`: a module called twice with another one in between, both active / one active
+    rules = [{"pat": "a", "tpl": "b"}, {"pat": "b", "tpl": "ab"}, {"pat": "(a)b", "tpl": r"\1"}]
+    for act_x, act_y in ((True, True), (False, True), (True, False)):
+        y = {"k": "ext", "name": "y", "active": act_y, "ops": [{"k": "rule", "id": 0}]}
+        x = {"k": "ext", "name": "x", "active": act_x, "ops": [{"k": "rule", "id": 1}]}
+        for via in ("string", "file"):
+            yield make_case([y, x, copy.deepcopy(y), {"k": "rule", "id": 2}], rules, [], strings[:40], tok=" ", via=via,
+                            kind="specimen")
 
 
 def gen_case(rng, mode=None, tok=False):
@@ -464,13 +510,14 @@ def build(case, tmpdir, want_loaded=None, ctx=None):
         warnings.simplefilter("ignore")
         if case["via"] == "string" and not rd.files:
             if ctx is not None:
-                def fresh_string():
+                def fresh_string(active=None, wrap=None):
                     with warnings.catch_warnings():
                         warnings.simplefilter("ignore")
                         ms = {}
                         for name, lines in rd.modules:
                             ms[name] = REPP.from_string("\n".join(lines), name=name, modules=ms)
-                        return REPP.from_string("\n".join(rd.main), name="main", modules=ms)
+                        return REPP.from_string("\n".join(rd.main), name="main",
+                                                modules=(ms if wrap is None else wrap(ms)), active=active)
                 ctx["fresh"] = fresh_string
             mods = {}
             done = []
@@ -498,10 +545,10 @@ def build(case, tmpdir, want_loaded=None, ctx=None):
         if ctx is not None:
             path = os.path.join(d, "main.rpp")
 
-            def fresh_file():
+            def fresh_file(active=None, wrap=None):
                 with warnings.catch_warnings():
                     warnings.simplefilter("ignore")
-                    return REPP.from_file(path)
+                    return REPP.from_file(path, active=active, modules=(None if wrap is None else wrap({})))
             ctx.update(fresh=fresh_file, dir=d, path=path,
                        shared=[ln for ln in rd.main if ln.startswith("<") or (ln.startswith(">") and not ln[1:].isdigit())])
         return r
@@ -611,6 +658,40 @@ def purity_battery(case, r, ctx, obs, active):
             for s in inputs:
                 if res(f, s, act) != first[(s, tuple(act))]:
                     fail("purity: the reused REPP object differs from a freshly constructed one", (s, act))
+        # (2b) argument types inside the documented signature: `active: Iterable[str]` in every shape, for
+        # apply / trace / tokenize and for the constructors; `modules` as any Mapping
+        import collections
+        import types as _types
+        for act in [a for a in sets if a][:2]:
+            shapes = [("list", lambda a=act: list(a)), ("tuple", lambda a=act: tuple(a)), ("set", lambda a=act: set(a)),
+                      ("frozenset", lambda a=act: frozenset(a)), ("dict keys", lambda a=act: dict.fromkeys(a).keys()),
+                      ("generator", lambda a=act: (x for x in a)), ("iter(list)", lambda a=act: iter(list(a))),
+                      ("reversed list", lambda a=act: list(reversed(a))),
+                      ("iter(reversed)", lambda a=act: iter(list(reversed(a))))]
+            for label, mk in shapes:
+                for s in inputs:
+                    want = first[(s, tuple(act))]
+                    if res(r, s, mk()) != want:
+                        fail("argument types: apply(s, active=<%s>) differs from active given as a set" % label, (s, act))
+                    tr = list(r.trace(s, active=mk(), verbose=True))[-1]
+                    if (tr.string, list(tr.startmap), list(tr.endmap)) != want:
+                        fail("argument types: trace(s, active=<%s>) differs from active given as a set" % label, (s, act))
+                    if len(r.tokenize(s, active=mk()).tokens) != len(r.tokenize(s, active=set(act)).tokens):
+                        fail("argument types: tokenize(s, active=<%s>) differs from active given as a set" % label, (s, act))
+            for label, mk in shapes[1:7:2] + shapes[-1:]:
+                f = fresh(active=mk())
+                for s in inputs:
+                    if res(f, s, None) != first[(s, tuple(act))]:
+                        fail("argument types: constructor active=<%s> differs from passing the set to apply" % label, (s, act))
+        for label, wrap in [("MappingProxyType", _types.MappingProxyType), ("OrderedDict", collections.OrderedDict),
+                            ("ChainMap", lambda d: collections.ChainMap({}, d))]:
+            try:
+                f = fresh(wrap=wrap)
+            except (R.REPPError, re.error):
+                continue
+            for s in inputs:
+                if res(f, s, sets[0]) != first[(s, tuple(sets[0]))]:
+                    fail("argument types: modules=<%s> differs from modules given as a dict" % label, (s,))
         if names and names in sets and [] in sets:
             for n in names:
                 r.activate(n)
@@ -1266,7 +1347,7 @@ def c14_tables():
 class C13(Check):
     pid = "C13"
     driver = "Verif/C13/Driver.lean"
-    quick_cases = 2000
+    quick_cases = 1700
     thorough_cases = 20000
     rule = ("REPP programs from a regex grammar (literals, classes, ? * + {m,n}, anchors, alternation, lookahead, 0-4 "
             "capture groups incl. optional, nested, empty and named) with templates mixing literals, \\N, \\g<N>, "
@@ -1323,7 +1404,8 @@ class C13(Check):
             self.tmp = None
 
     def extra_evidence(self):
-        return {"diverging_skipped": self.diverging, "regex_module": "stdlib re"}
+        return {"diverging_skipped": self.diverging, "regex_module": "stdlib re",
+                "alarms": TIMEOUTS["n"], "alarm_seconds": round(TIMEOUTS["spent"], 1)}
 
     def tables(self):
         """Pins: constants of the anchored code that the hand-written models mirror (see c13_pins in Props.lean)"""
@@ -1502,7 +1584,7 @@ class C13(Check):
             if ld is None:
                 rx = re.compile(ru["pat"])
                 ld = {"ngroups": rx.groups, "names": sorted([cps(k), v] for k, v in rx.groupindex.items())}
-            rules.append({"id": i, "tpl": cps(ru["tpl"]), "ngroups": ld["ngroups"], "names": ld["names"]})
+            rules.append({"id": i, "pat": cps(ru["pat"]), "tpl": cps(ru["tpl"]), "ngroups": ld["ngroups"], "names": ld["names"]})
 
         def conv(nodes):
             out = []
@@ -1523,7 +1605,11 @@ class C13(Check):
             seps.append(run.get("seps") if "err" not in run else None)
         req = {"op": "run", "rules": rules, "prog": conv(case["prog"]), "eng": obs["eng"], "inputs": inputs,
                "seps": seps, "fuel": FUEL,
-               "ltexts": [load_request(lines, files, hd, pre) for _, lines, files, hd, pre in obs["ltexts"]]}
+               "ltexts": [dict(load_request(lines, files, hd, pre), label=cps(label))
+                          for label, lines, files, hd, pre in obs["ltexts"]],
+               # the model runs what the TEXT gives (loader model + Link.lean), not the harness's tree
+               "link": {"active": [cps(x) for x in sorted(active_names(case["prog"]))],
+                        "masks": [cps(x) for x in case["masks"]]}}
         if case["kind"] == "masked":
             req["meng"] = obs["meng"]        # selects the mask-threading semantics of the model
         return req
@@ -1543,6 +1629,8 @@ class C13(Check):
             got = prune_loaded(answer.get("loaded"), case["pre"])
             return None if got == expected["loaded"] else {"expected_from_impl": expected["loaded"], "model": got}
         if "err" not in expected and isinstance(answer, dict) and "runs" in answer:
+            if answer.get("treeagree") is False:
+                return {"link": "the operation tree linked from the loaded text differs from the harness's tree"}
             obs = self.full(case)
             got = answer.get("loaded")
             if "loaded" not in expected:
@@ -1869,6 +1957,16 @@ class C13(Check):
         return json.dumps(case, sort_keys=True)
 
     def shrink(self, case, still_fails):
+        import time as _time
+        t0 = _time.time()
+        calls = [0]
+        inner = still_fails
+
+        def still_fails(c):          # noqa: F811 - bounded: a broken tree must still finish in about two minutes
+            calls[0] += 1
+            if calls[0] > 60 or _time.time() - t0 > 12:
+                return False
+            return inner(c)
         if case["kind"] == "load":
             changed = True
             while changed:
